@@ -1,4 +1,4 @@
-package limits
+package limits_test
 
 import (
 	"context"
@@ -11,14 +11,15 @@ import (
 	"testing"
 	"time"
 
+	"github.com/foxcpp/maddy/internal/limits"
 	"github.com/foxcpp/maddy/internal/verifshim/vh"
 	"github.com/foxcpp/maddy/internal/verifshim/vlim"
 )
 
 // ---- key spelling shared with the other C11 harnesses ----
 
-func c11IP(id int) net.IP        { return net.IPv4(10, 0, byte(id/256), byte(id%256)) }
-func c11Dom(id int) string       { return "d" + strconv.Itoa(id) + ".example" }
+func c11IP(id int) net.IP  { return net.IPv4(10, 0, byte(id/256), byte(id%256)) }
+func c11Dom(id int) string { return "d" + strconv.Itoa(id) + ".example" }
 func c11KeyID(_ int, k string) int {
 	if strings.HasPrefix(k, "d") && strings.HasSuffix(k, ".example") {
 		n, _ := strconv.Atoi(k[1 : len(k)-len(".example")])
@@ -48,7 +49,7 @@ func c11RandCfg(r *vh.Rng) vlim.Cfg {
 		}
 		for i := 0; i < n; i++ {
 			var l vlim.Lim
-			l.Sem = r.Chance(75)
+			l.Sem = r.Chance(80)
 			switch x := r.Intn(20); {
 			case x == 0:
 				l.N = 0
@@ -56,6 +57,9 @@ func c11RandCfg(r *vh.Rng) vlim.Cfg {
 				l.N = -1 - r.Intn(3)
 			default:
 				l.N = 1 + r.Intn(3)
+				if !l.Sem {
+					l.N = 1 + r.Intn(12)
+				}
 			}
 			c.Scopes[sc] = append(c.Scopes[sc], l)
 		}
@@ -131,7 +135,7 @@ func c11ErrStr(err error, cancelled bool) string {
 }
 
 // c11Do performs one op token on the real group. Returns result token ("ok","timeout","full","panic").
-func c11Do(g *Group, op string) (res string, detail string) {
+func c11Do(g *limits.Group, op string) (res string, detail string) {
 	f := strings.Split(op, ".")
 	atoi := func(i int) int { n, _ := strconv.Atoi(f[i]); return n }
 	var err error
@@ -168,6 +172,7 @@ func c11GrpCase(out *vh.Out, cfg vlim.Cfg, r *vh.Rng, fixed []string) {
 		out.Note("init error: " + err.Error())
 		return
 	}
+	defer vlim.CloseGroup(g)
 	mon := newC11Mon(cfg)
 	var held c11Held
 	var ops, obs []string
@@ -330,7 +335,7 @@ func c11GrpCase(out *vh.Out, cfg vlim.Cfg, r *vh.Rng, fixed []string) {
 }
 
 // c11Capacity acquires the full configured N in every scope for each key id, and releases it again.
-func c11Capacity(out *vh.Out, g *Group, cfg vlim.Cfg, opl string, keys []int) {
+func c11Capacity(out *vh.Out, g *limits.Group, cfg vlim.Cfg, opl string, keys []int) {
 	for _, k := range keys {
 		if !(cfg.HasRate(0) || cfg.HasRate(1) || cfg.HasRate(2)) {
 			n := 0
@@ -438,6 +443,7 @@ func c11ConcCase(out *vh.Out, cfg vlim.Cfg, seed uint64, workers, rounds, nKeys 
 		out.Note("init error: " + err.Error())
 		return
 	}
+	defer vlim.CloseGroup(g)
 	var occ c11Occ
 	var viol atomic.Value
 	var wg sync.WaitGroup
